@@ -20,9 +20,9 @@ theorem padWidth_pads (clusters : String → List String) (v : Verb) (s : String
   have : ¬ (clusters s).length ≥ v.width := by omega
   simp [padWidth, h, this]
 
-theorem precCut_pos (clusters : String → List String) (v : Verb) (s : String) (h : v.hasPrec = true) (hp : 0 < v.prec) :
+theorem precCut_has (clusters : String → List String) (v : Verb) (s : String) (h : v.hasPrec = true) :
     precCut clusters v s = String.join ((clusters s).take v.prec) := by
-  simp [precCut, h, hp]
+  simp [precCut, h]
 
 theorem formatAppend_missing (L : Lib) (v : Verb) (args : List Value) (h : args.length < v.argNum) :
     formatAppend L v args = .err "not enough arguments" := by
